@@ -443,3 +443,52 @@ Example ex_checkers_on_fixed_tree :
    chunk_contract (reference true true), completes (reference true true))
   = (true, true, true, true, true, true).
 Proof. exact reference_checkers_fixed. Qed.
+
+(* ---- round 5: the loader-size parameters of the configuration ---------------------------------------------
+   `ACall 0` ("Trainer.fit returns") presumes that the loaders handed to fit are not empty: a validation loader of
+   explicit length 0 (len(dataset) // batch_size with a batch size LARGER than the number of samples, passed on
+   without the `!= 0 else 1` / `max(1, .)` guard) makes Lightning skip validation, `val_loss` is never logged and
+   its monitors raise.  The translator reads the steps-per-epoch expression of every loader construction into the
+   term (`ALoader k s`); `loader_steps_contract` is recomputed on the generated term on every run and these theorems
+   are instantiated on it (`gen_run_completes` carries the loader clause). *)
+Theorem loader_steps_positive : forall s, may_be_zero s = false ->
+  forall cfg n b, cfg_steps_valid cfg -> 1 <= n -> 1 <= b -> 1 <= loader_len (steps_val s cfg n b) n b.
+Proof. exact steps_positive_lemma. Qed.
+Print Assumptions loader_steps_positive.
+
+Theorem loaders_never_empty : forall p, loader_steps_contract p = true ->
+  forall E k s, In (ALoader k s) (trace E p) ->
+  forall cfg n b, cfg_steps_valid cfg -> 1 <= n -> 1 <= b -> 1 <= loader_len (steps_val s cfg n b) n b.
+Proof. exact loaders_never_empty_lemma. Qed.
+Print Assumptions loaders_never_empty.
+
+Theorem loaders_built_before_fit : forall p, loader_steps_contract p = true ->
+  forall c, valid_cell (cell_flags c) = true -> result (cenv p c None) p = Ok ->
+  exists st sv, In (ALoader LTrain st) (before_fit (trace (cenv p c None) p)) /\
+                In (ALoader LVal sv) (before_fit (trace (cenv p c None) p)).
+Proof. exact loaders_built_lemma. Qed.
+Print Assumptions loaders_built_before_fit.
+
+Theorem run_completes_with_loaders : forall p, completes p = true -> loader_steps_contract p = true ->
+  forall E, valid_cell (fl E) = true -> (forall i, fault E i = NoFault) ->
+  (result E p = Ok \/ result E p = ExnInvalid) /\
+  (forall k s, In (ALoader k s) (trace E p) ->
+   forall cfg n b, cfg_steps_valid cfg -> 1 <= n -> 1 <= b -> 1 <= loader_len (steps_val s cfg n b) n b).
+Proof. exact run_completes_with_loaders_lemma. Qed.
+Print Assumptions run_completes_with_loaders.
+
+Theorem loader_steps_contract_reference : forall b14 b15, loader_steps_contract (reference b14 b15) = true.
+Proof. exact reference_loader_steps. Qed.
+Print Assumptions loader_steps_contract_reference.
+
+(* the unguarded floor division is rejected and IS an empty loader for 1 sample in batches of 2 (length 0); the
+   guarded form is accepted (length 1); a default that is itself unguarded is rejected (2 samples, batches of 4);
+   a loader without explicit length has its own length ceil(1 / 2) = 1 *)
+Example ex_unguarded_loader_rejected :
+  (loaders_ok (Do (ALoader LVal StFloorDiv)), loader_len (steps_val StFloorDiv None 1 2) 1 2,
+   loaders_ok (Do (ALoader LVal (StAtLeast1 StFloorDiv))), loader_len (steps_val (StAtLeast1 StFloorDiv) None 1 2) 1 2,
+   loaders_ok (Do (ALoader LTrain (StIfNone StConfig StFloorDiv))),
+   loader_len (steps_val (StIfNone StConfig StFloorDiv) None 2 4) 2 4,
+   loader_len (steps_val StDefault None 1 2) 1 2)
+  = (false, 0, true, 1, false, 0, 1).
+Proof. exact unguarded_loader_rejected. Qed.
